@@ -17,9 +17,9 @@ variable {α : Type} [Add α] [Sub α] [Mul α] [Div α] [Neg α] [OfNat α 0] [
 def paramsOf (K : Spec α) (dim : α) : Params α :=
   match K with
   | .laplace q L | .light q L | .product q L =>
-      { bandwidth := L, exponent := q, p := 0, constMix := 0, power := 0, dim := dim, eps := 0 }
-  | .lpq p q L => { bandwidth := L, exponent := q, p := p, constMix := 0, power := 0, dim := dim, eps := 0 }
-  | .sumPower q L c P => { bandwidth := L, exponent := q, p := 0, constMix := c, power := P, dim := dim, eps := 0 }
+      { bandwidth := L, exponent := q, p := 0, constMix := 0, power := 0, dim := dim, eps := 0, baseBandwidth := 0 }
+  | .lpq p q L => { bandwidth := L, exponent := q, p := p, constMix := 0, power := 0, dim := dim, eps := 0, baseBandwidth := 0 }
+  | .sumPower q L c P => { bandwidth := L, exponent := q, p := 0, constMix := c, power := P, dim := dim, eps := 0, baseBandwidth := 0 }
 
 /-- the regenerated `_get_kernel_matrix_impl` of the class of `K` -/
 def pipelineOf (K : Spec α) (dim : α) : Pipeline α :=
